@@ -347,11 +347,9 @@ impl Lowerer<'_> {
 
             let arm_lbl = arm_labels[arm_index];
 
-            // Even if we "forget" to drop the values, we still need to pop
-            // them from the stack.
-            let to_drop = self.stack_slots.pop().unwrap();
-
-            if let Some(guard) = &arm.guard {
+            // The extracted fields stay on the stack while the guard is
+            // evaluated, because the guard might return early.
+            let guard_result = if let Some(guard) = &arm.guard {
                 // The guard is only evaluated if we get to this arm, so the
                 // temporaries that it creates need their own stack slot,
                 // which we drop as soon as the guard has been evaluated.
@@ -372,6 +370,16 @@ impl Lowerer<'_> {
                     self.emit_drop(Place::new(var, ty), ty);
                 }
 
+                Some(op)
+            } else {
+                None
+            };
+
+            // Even if we "forget" to drop the values, we still need to pop
+            // them from the stack.
+            let to_drop = self.stack_slots.pop().unwrap();
+
+            if let Some(op) = guard_result {
                 let ident = Identifier::from(format!("guard_{}_drop", i));
                 let intermediate_lbl =
                     self.label_store.wrap_internal(lbl, ident);
